@@ -28,7 +28,7 @@ SHAPE_PARAMS = {
     "Triangle": [[0.0, 0.5, 1.0], [-INF, 0.25, 0.75], [0.0, 0.0, 1.0]], "ZShape": [[0.0, 1.0], [0.25, 0.5]],
 }
 HEIGHTS = [1.0, 0.5, 0.96, 0.9995, 2.0]
-WEIGHTS = [None, "0.500", "0.9996", "0.960", "0.12346"]
+WEIGHTS = [None, "0.500", "0.9996", "0.960", "0.12346", "0.000"]
 
 
 def _set(path, value):
